@@ -17,6 +17,7 @@ func init() {
 			"D2 encoders — completely unrolled likewise: every path of the variable-length encoders appends between 1 and 9 single bytes and does nothing else to the buffer; the fixed float appends exactly 8. "+
 			"D3 size functions are tied to the encoders — both size tables are filled from len of a buffer written by the corresponding encoder; Varint64Size applies Uvarint64Size to the same zig-zag term EncodeVarint64 hands to EncodeUvarint64; Varfloat64Size recomputes the same transformed word as EncodeVarfloat64; table index direction matches group direction (LSB-first ↔ leading zeros, MSB-first ↔ trailing zeros). "+
 			"D4 inverse pairs by shape — zig-zag (v<<1)^(v>>63) arithmetic / (u>>1)^−(u&1) logical; var-float chain [+1, bits, −bits(1), rotl k] undone by [rotl −k, +bits(1), frombits, −1] with the same k. "+
+			"D3 also: a size function answers with a literal n only on paths whose own conditions force the transported word below 2^(7n) (signed range tests −2^k ≤ v < 2^k are the linear constraints v[j] = v[63], composed with the zig-zag transform in the bit domain). "+
 			"D5 group constants agree inside each pair: 7-bit groups, continuation bit 0x80 set ↔ tested, payload mask 0x7F, ninth byte carries 8 bits on both sides. "+
 			"D5 bit agreement (bits.go) — encoder and decoder of each variable-length codec (uvarint64, zig-zag varint64, varfloat64) are composed in a bit-provenance domain without running either: a 64-bit value is 64 positions, each the XOR of a set of input bits and a constant (or unknown); shifts, rotations, truncations, XOR, and AND/OR with constants are exact, path conditions `x < 2^k`, `x == 0` become linear constraints. For every enumerated size class of the encoder (delegation to another encoder expanded) and every enumerated decoder path whose byte tests those bytes can satisfy: the decoder consumes exactly the bytes produced, never reads past them, and every bit of its result is the encoded bit it came from; the arithmetic wrappers around the transported word (+1, Float64bits, −Float64bits(1)) are undone in reverse order. This is decode(encode(v)) = v and exact framing for all values of every class, decided symbolically per class. Classes whose conditions fall outside the domain are left undecided silently (counted in the evidence), never reported. "+
 			"NOT DECIDED: size = length for all values; the value-level behaviour of the wrappers themselves (v+1 rounding is the documented loss of varfloat64).",
@@ -30,6 +31,7 @@ func runC18(c *Ctx) {
 	c18Sizes(c)
 	c18Inverse(c)
 	c18BitAgreement(c)
+	c18SizeBound(c)
 }
 
 func lit(t *Term) (int64, bool) {
